@@ -14,6 +14,8 @@ CONSTANTS
   BaseCases = FALSE
   NsSet = {"mdPrefix", "selfPrefix", "ancestorPrefix", "foreignPrefix", "noNs", "undeclared"}
   NsWide = FALSE
+  ChecksFirstAttribute = FALSE
+  AttrForms = {}
 INIT Init
 NEXT Next
 INVARIANTS
